@@ -6,8 +6,11 @@
 
 mod util;
 mod c03;
+mod c04;
 mod c15;
 mod c16;
+mod client;
+mod server;
 
 use std::io::{BufRead, Write};
 
@@ -26,6 +29,10 @@ fn eval(op: &str, args: &[&str]) -> Option<Vec<String>> {
         "mailcmd" => c16::mailcmd(args),
         "argv" => c16::argv(args),
         "envcheck" => c16::envcheck(args),
+        "client" => client::client(args),
+        "mailparam" => c04::mailparam(args),
+        "ehlocmd" => c04::ehlocmd(args),
+        "mailstd" => c04::mailstd(args),
         _ => None,
     }
 }
